@@ -31,21 +31,21 @@ import (
 
 // Step is one client (or server-side) action of a session.
 type Step struct {
-	Kind    string `json:"kind"` // init start stop ping pong terminate invalid abrupt servercancel wait
-	ID      string `json:"id,omitempty"`
-	Op      string `json:"op,omitempty"`      // start: query mutation subscription invalid badjson nullpayload
-	Events  int    `json:"events,omitempty"`  // subscription: number of events
-	GapUS   int    `json:"gap_us,omitempty"`  // subscription: pause before each event
-	Fault   string `json:"fault,omitempty"`   // "", error, panic (resolver)
+	Kind   string `json:"kind"` // init start stop ping pong terminate invalid abrupt servercancel wait
+	ID     string `json:"id,omitempty"`
+	Op     string `json:"op,omitempty"`     // start: query mutation subscription invalid badjson nullpayload
+	Events int    `json:"events,omitempty"` // subscription: number of events
+	GapUS  int    `json:"gap_us,omitempty"` // subscription: pause before each event
+	Fault  string `json:"fault,omitempty"`  // "", error, panic (resolver)
 	// Endless: the subscription's event source, after its events, stays open until its context is
 	// cancelled - only a stop, the end of the connection or a server-side cancellation ends it
-	Endless bool `json:"endless,omitempty"`
+	Endless bool   `json:"endless,omitempty"`
 	Payload string `json:"payload,omitempty"` // init payload / invalid frame text
 	DelayUS int    `json:"delay_us,omitempty"`
 }
 
 type Case struct {
-	Proto       string `json:"proto"` // graphql-ws | graphql-transport-ws
+	Proto       string `json:"proto"`     // graphql-ws | graphql-transport-ws
 	InitFunc    string `json:"init_func"` // none accept reject
 	KeepAliveUS int    `json:"keepalive_us"`
 	PingPongUS  int    `json:"pingpong_us"`
